@@ -189,6 +189,68 @@ func (s *allocState) exec1(c *ctx, op string) string {
 		})
 		c.emit(op, res)
 		return res
+	case "ahchurn": // ahchurn <k> <rounds>: k callers at once, each naming ITS OWN free block as a hint, taking it and freeing it, again and again
+		if s.a == nil {
+			return ""
+		}
+		k, rounds := atoi(f[1]), atoi(f[2])
+		// k blocks that are free and that only their caller names: taken one after the other (neighbours in the bitmap), freed again
+		var mine []net.IPNet
+		for i := 0; i < k; i++ {
+			b, err := s.a.Allocate(net.IPNet{})
+			if err != nil {
+				break
+			}
+			mine = append(mine, b)
+		}
+		setupBad := ""
+		for _, b := range mine {
+			if err := s.a.Free(b); err != nil {
+				setupBad = fmt.Sprintf("free of the block %s just taken failed: %v", fmtAllocRes(b, nil)[3:], err)
+			}
+		}
+		if setupBad != "" {
+			c.emit(op, setupBad)
+			return setupBad
+		}
+		if len(mine) < 2 {
+			c.emit(op, "full")
+			return "full"
+		}
+		var bad atomic.Value
+		fs := make([]func() string, len(mine))
+		for i := range fs {
+			b := mine[i]
+			fs[i] = func() string {
+				for r := 0; r < rounds && bad.Load() == nil; r++ {
+					got, err := s.a.Allocate(b)
+					if err != nil {
+						bad.Store(fmt.Sprintf("hint %s names a block that is free, Allocate failed: %v (round %d)", fmtAllocRes(b, nil)[3:], err, r))
+						return "done"
+					}
+					if !got.IP.Equal(b.IP) || got.Mask.String() != b.Mask.String() {
+						bad.Store(fmt.Sprintf("hint %s names a block that is free, Allocate returned %s (round %d)", fmtAllocRes(b, nil)[3:], fmtAllocRes(got, nil)[3:], r))
+						return "done"
+					}
+					if err := s.a.Free(b); err != nil {
+						bad.Store(fmt.Sprintf("free of the caller's own block %s failed: %v (round %d)", fmtAllocRes(b, nil)[3:], err, r))
+						return "done"
+					}
+				}
+				return "done"
+			}
+		}
+		res := "ok"
+		for _, st := range together(fs) {
+			if st == "HANG" {
+				res = "HANG"
+			}
+		}
+		if v := bad.Load(); v != nil {
+			res = v.(string)
+		}
+		c.emit(op, res)
+		return res
 	case "achurn": // achurn <k> <rounds>: k callers at once, each taking a block (no hint) and freeing its own, again and again
 		if s.a == nil {
 			return ""
